@@ -159,14 +159,14 @@ func TestC01(t *testing.T) {
 		mode := rapid.IntRange(0, 9).Draw(rt, "mode")
 		switch {
 		case mode <= 4:
-			m := gen.DSLModel(rt, gen.DSLOpts{Rich: true, Conditions: true, MultiLine: true})
+			m := gen.DSLModel(rt, gen.DSLOpts{Rich: true, Conditions: true, MultiLine: true, Scale: true})
 			r := gen.Render(m, &rapidChooser{t: rt}, gen.RenderOpts{})
 			in = c01Input{DSL: r.Text, Origin: "rendered"}
 		case mode <= 7:
 			base := rapid.SampledFrom(corp.DSL).Draw(rt, "corpusDoc")
 			in = c01Input{DSL: gen.Mutate(rt, base, corp.DSL, 3), Origin: "corpus-mutant"}
 		default:
-			m := gen.DSLModel(rt, gen.DSLOpts{Rich: true, Conditions: true, MaxTypes: 3, MaxRels: 3})
+			m := gen.DSLModel(rt, gen.DSLOpts{Rich: true, Conditions: true, MaxTypes: 3, MaxRels: 3, Scale: true})
 			r := gen.Render(m, &rapidChooser{t: rt}, gen.RenderOpts{})
 			in = c01Input{DSL: gen.Mutate(rt, r.Text, corp.DSL, 2), Origin: "rendered-mutant"}
 		}
